@@ -40,6 +40,9 @@ def alphabet(tier):
         ev.append({"s": A, "op": "subscribe", "m": n})
     for n in ["a", "a/b"]:
         ev.append({"s": A, "op": "unsubscribe", "m": n})
+    # the same names behind the advertised namespace prefix `/` must behave as the bare names
+    ev += [{"s": A, "op": "delete", "m": "/a"}, {"s": A, "op": "delete", "m": "/INBOX"}, {"s": A, "op": "delete", "m": "/a/b"},
+           {"s": A, "op": "create", "m": "/z"}, {"s": A, "op": "rename", "m": "/a", "to": "/c"}, {"s": A, "op": "subscribe", "m": "/a/b"}]
     ev += [{"s": A, "op": "select", "m": "a"}, {"s": "B", "op": "select", "m": "a/b"}, {"s": A, "op": "append", "m": "a/b"},
            {"s": "env", "op": "restart"}]
     return ev
